@@ -2,22 +2,71 @@ import GqlVerif.Proofs.C05Body
 import GqlVerif.Proofs.C02Response
 import GqlVerif.Props.C12
 
+/-!
+# C04 (second half) — every valid variables assignment is expressible; what is written is valid
+
+Files: `C04Surjective.lean` (this file: specification, canonical form, `Val` typing, what is needed of a module),
+`C04SurjectiveExpress.lean` (`express_core`: the induction), `C04SurjectiveModule.lean` (closed forms of the emitted
+input items, `inputEnv_of_module`, **`input_expressible`**, **`variables_expressible`**),
+`C04SurjectiveSerValid.lean` (**`ser_valid`**, **`variables_ser_valid`**), `C04SurjectiveExamples.lean` (what `canon`
+changes, an executable checker, a concrete instance of all hypotheses, the witnesses for what cannot be strengthened).
+
+## Specification (GraphQL spec §3.10 Input Objects, §3.5 Scalars, §3.9 Enums, §3.12 wrapping types, §5.6 values)
+
+`Valid L s id b t j`: the JSON value `j` is valid at a position whose type expression is `t` (only the `[ ]` / `!`
+structure of `t` matters) over the named type `id`; `b = true`: non-null context.
+* `null` exactly at nullable positions; lists (JSON arrays, element-wise) at list positions — the specification's
+  coercion of a single value to a one-element list is **not** included;
+* input object: a JSON object without repeated keys, all keys declared fields, every absent field nullable
+  (defaults are ignored, as the generator does: every non-null field is required), every present value valid for the
+  field's type — recursive input types need no special treatment: the recursion is on the derivation, i.e. on the
+  JSON value;
+* `@oneOf`: an object with exactly one member, a declared field, whose value is valid at the field's type made
+  non-null;
+* enum: a string; with `L.enumOpen = false` one of the schema's value names (**closed**, the specification), with
+  `true` any string (**open world**, what the generated `Other(String)` variant accepts);
+* scalars by name: `Int` an integer with `L.intOk` (`int32Ok`: the specification; `inI64`: the generated `i64`),
+  `Float` any JSON number, `Boolean`, `String`, `ID` a string or an integer with `L.idInt`, every custom scalar a
+  string (the consumer's type is taken to be `String`).
+`Leaves.graphql` is the specification, `Leaves.wire` what the generated types can write.
+
+`canon s skip id t j`: the **canonical form** the generated types write: members of every input object in declaration
+order, every absent nullable member an explicit `null` (`skip = false`) / every `null` member dropped (`skip = true`:
+`skip_serializing_none`), an integer at an `ID` position as its decimal string; nothing else changes
+(`assemble_keys`, `assemble_lookup` in the examples file make this precise).
+
+`HasTy e r x`: `x` is a value of the Rust type `r` in the module `e` ("a `Val` of the generated type").  The four
+leaf names `String`/`i64`/`f64`/`bool` are resolved first, as `Serde.dePath` does.
+
+`InputEnv c e U`: what the theorems need of the module `e`: the names of the used (`U`) scalars, enums, input types
+resolve to the items the generator emits for them (closed forms `inputItemSpec`, `enumItem`), custom scalars / extern
+enums to a consumer type `String`; distinct member identifiers.  `inputEnv_of_module` proves it for the module
+`responseForQuery` emits.
+-/
 namespace GqlVerif
 namespace C04S
 open Codegen Serde C13
 
 /-! ## 1. specification -/
 
+/-- the leaf conventions the specification is parametric in -/
 structure Leaves where
+  /-- integers allowed at `Int` positions -/
   intOk : Int → Bool
+  /-- integers allowed at `ID` positions (strings always are) -/
   idInt : Int → Bool
+  /-- `true`: any string at an enum position; `false`: only the schema's value names -/
   enumOpen : Bool
 
+/-- GraphQL `Int`: signed 32 bits (spec §3.5.1) -/
 def int32Ok (n : Int) : Bool := -2147483648 ≤ n && n ≤ 2147483647
 
+/-- the GraphQL specification: 32-bit `Int`, `ID` from a string or any integer, closed enums -/
 def Leaves.graphql : Leaves := { intOk := int32Ok, idInt := fun _ => true, enumOpen := false }
+/-- what the generated types write: 64-bit `Int` (`i64`), `ID` only as a string, open-world enums -/
 def Leaves.wire : Leaves := { intOk := inI64, idInt := fun _ => false, enumOpen := true }
 
+/-- a scalar value, by the *name* of the scalar; a custom scalar is whatever the consumer's type accepts: `String` -/
 def scalarOk (L : Leaves) (n : String) (j : Json) : Bool :=
   if n == "Int" then (match j with | .int k => L.intOk k | _ => false)
   else if n == "Float" then Spec.floatOk j
@@ -25,6 +74,7 @@ def scalarOk (L : Leaves) (n : String) (j : Json) : Bool :=
   else if n == "ID" then (match j with | .str _ => true | .int k => L.idInt k | _ => false)
   else Spec.stringOk j
 
+/-- the type expression with qualifier list `qs` (outer to inner) over the name `n` -/
 def ofQuals (n : String) : List Qual → GTy
   | [] => .named n
   | .list :: qs => .list (ofQuals n qs)
@@ -35,10 +85,14 @@ theorem quals_ofQuals (n : String) : ∀ qs : List Qual, (ofQuals n qs).quals = 
   | .list :: qs => by simp [ofQuals, GTy.quals, quals_ofQuals n qs]
   | .required :: qs => by simp [ofQuals, GTy.quals, quals_ofQuals n qs]
 
+/-- the type expression of a resolved type; the named type is carried separately as a `TypeId`, the base name of
+    the expression is immaterial -/
 def gty (ft : FieldType) : GTy := ofQuals "" ft.quals
 
 abbrev keys (kvs : List (String × Json)) : List String := kvs.map (·.1)
 
+/-- **`validInput`**: `j` is a valid input value at a position of type `t` over the named type `id`
+    (`b = true`: in non-null context) — see the header -/
 inductive Valid (L : Leaves) (s : Schema) : TypeId → Bool → GTy → Json → Prop
   | null {id t} : isNN t = false → Valid L s id false t .null
   | some {id t j} : isNN t = false → Valid L s id true t j → Valid L s id false t j
@@ -56,25 +110,31 @@ inductive Valid (L : Leaves) (s : Schema) : TypeId → Bool → GTy → Json →
       Valid L s p.2.id false (.nonNull (gty p.2)) v →
       Valid L s (.input k) true (.named nm) (.obj [(p.1, v)])
 
+/-- element type of a list type (through `!`) -/
 def elemTy : GTy → GTy
   | .nonNull t => elemTy t
   | .list t => t
   | .named n => .named n
 
+/-- the named type is the scalar `ID` -/
 def isID (s : Schema) : TypeId → Bool
   | .scalar k => s.scalars[k]? == some "ID"
   | _ => false
 
+/-- the members of an input object in declaration order: absent = `null`; with `skip` the `null`s are dropped -/
 def assemble (skip : Bool) (fields : List (String × FieldType)) (kvs : List (String × Json)) : List (String × Json) :=
   fields.filterMap fun p =>
     let v := (Json.lookup p.1 kvs).getD .null
     if skip && v.isNull then none else some (p.1, v)
 
+/-- the input type behind an id -/
 def inputOf (s : Schema) : TypeId → Option StoredInput
   | .input k => s.inputs[k]?
   | _ => none
 
 mutual
+  /-- **`canonInput`** — structural recursion on the JSON value; the type is only used to find the field lists of
+      nested input objects and the `ID` positions -/
   def canon (s : Schema) (skip : Bool) : TypeId → GTy → Json → Json
     | id, t, .arr xs => .arr (canonList s skip id (elemTy t) xs)
     | id, _, .obj kvs =>
@@ -238,7 +298,8 @@ structure InputEnv (c : Ctx) (e : Env) (U : TypeId → Prop) : Prop where
   inputs : ∀ k i, U (.input k) → c.s.inputs[k]? = some i →
     C01.notPrim i.name ∧ e.find i.name = some (inputItemSpec c i)
   closed : ∀ k i, U (.input k) → c.s.inputs[k]? = some i → ∀ p ∈ i.fields,
-    U p.2.id ∧ C02.Relevant p.2.id ∧ wf (gty p.2) = true ∧ (i.isOneOf = true → isNN (gty p.2) = false)
+    U p.2.id ∧ C02.Relevant p.2.id ∧ wf (gty p.2) = true ∧ (i.isOneOf = true → isNN (gty p.2) = false) ∧
+    ∃ tn, c.s.typeName p.2.id = .ok tn
   fieldNames : ∀ k i, U (.input k) → c.s.inputs[k]? = some i → (i.fields.map (·.1)).Nodup
   members : ∀ k i, U (.input k) → c.s.inputs[k]? = some i →
     (i.isOneOf = false → (i.fields.map (fun p => (inputField c p).rust)).Nodup) ∧
